@@ -70,6 +70,7 @@ inductive Script where
   | unsafeLeaf (id : Nat) (k : Script)           -- UnsafeString of the text of leaf `id` (error hooks)
   | print (args : Vals) (k : Script)             -- SafePrinter.Print
   | printf (f : List Byte) (args : Vals) (k : Script)
+  | indep (k : Script)                           -- an unrelated print call made by the method (its own printer from the pool)
   | panic (payload : Val)
 end
 
@@ -549,6 +550,7 @@ def runScript (env : Env) : Nat → PP → Script → SRes
     match sc with
     | .done => .ok p
     | .panic payload => .raised p payload
+    | .indep k => runScript env fuel p k
     | .safeString s k =>
       let (q, r) := p.startSafeOverride
       runScript env fuel ((q.w s).restore r) k
